@@ -90,6 +90,10 @@ void run(Ctx &ctx) {
     std::vector<Str> bases = resolve_bases(false), refs = resolve_refs(n, false);
     Runner<char> ra(&ctx, &lc); Runner<wchar_t> rw(&ctx, &lc); ra.setup(bases); rw.setup(bases);
     for (size_t i = 0; i < refs.size(); i++) { if (!ctx.mine(i)) continue; if (ctx.expired()) break; ra.run_ref(refs[i]); if (n <= 4 || i % 1 == 0) rw.run_ref(refs[i]); }
+    // stretch family as references (no percent-encoded dot segments, as the statement says) against a few bases
+    { std::vector<Str> sb = { "s://h/a/b?bq", "s:/a/b", "s:a/b", "s:", "s://h" }; Runner<char> sa(&ctx, &lc); Runner<wchar_t> sw2(&ctx, &lc); sa.setup(sb); sw2.setup(sb);
+      std::vector<Str> st = stretch_list(ctx.secondary || ctx.quick() ? 0 : 1);
+      for (size_t i = 0; i < st.size(); i++) { if (!ctx.mine(i)) continue; if (ctx.expired()) break; if (st[i].find("%2E") != Str::npos || st[i].find("%2e") != Str::npos) continue; sa.run_ref(st[i]); sw2.run_ref(st[i]); ctx.st.count("stretch_family"); } }
     ctx.st.count("evaluations", lc.pairs); ctx.st.count("references", lc.refs); ctx.st.count("kind_checks", lc.kind_checks); ctx.st.count("references_changed_by_normalisation", lc.changed_by_norm);
     for (auto &s : lc.targets) ctx.st.distinct("targets", s);
     if (ctx.worker == 0) { ctx.st.count("bases", bases.size()); ctx.st.count("param_n", n); ctx.st.sample("R=a/../b/./c:d B=s://u@h:1/a/b?bq"); ctx.st.sample("R=.//b B=s:a/b"); ctx.st.sample("R=//h/../b?q#f B=s:/a/.."); }
@@ -104,7 +108,7 @@ Str coverage(const Ctx &, const Stats &st) {
     return jkv("evaluations", st.get("evaluations")) + ", " + jkv("distinct_nontrivial", st.nset("targets")) + ", " +
            jkvs("rule", "cases = (reference R, base B, char type): R ranges over {no scheme, s:} x {no authority, //h} x all path-token sequences up to length n over {'', '.', '..', a, b, c:d} (rootless and absolute) x {no query, ?q} x {no fragment, #f}; B over all absolute bases of the C06 set. Oracle is differential: normalise(resolve(normalise(R), B)) must equal normalise(resolve(R, B)) textually and by uriEqualsUri; per R the kind (scheme, authority, empty/relative/absolute path) must survive normalisation. distinct_nontrivial = distinct normalised targets observed.") + ", " +
            jkv("references", st.get("references")) + ", " + jkv("bases", st.get("bases")) + ", " + jkv("path_tokens_max", st.get("param_n")) + ", " + jkv("kind_checks", st.get("kind_checks")) + ", " +
-           jkv("references_changed_by_normalisation", st.get("references_changed_by_normalisation")) + ", " + jsamples(st);
+           jkv("references_changed_by_normalisation", st.get("references_changed_by_normalisation")) + ", " + jkv("stretch_family_references", st.get("stretch_family")) + ", " + jsamples(st);
 }
 Check chk = { "C09", "exploration", run, replay, coverage, "differential oracle: uses the library's own resolver on both sides (its conformance is C06's subject)|percent-encoded dot segments are excluded as the statement says" };
 REGISTER_CHECK(chk);
